@@ -592,18 +592,19 @@ func (ctx *Context) evaluate() {
 				return
 			}
 
+			// 用无符号差值计算跨度，避免两端相距超过整数范围时溢出
 			step := IntType(1)
-			length := _b - _a
-			if length < 0 {
+			span := uint64(_b) - uint64(_a)
+			if _b < _a {
 				step = -1
-				length = -length
+				span = uint64(_a) - uint64(_b)
 			}
-			length += 1
 
-			if length > 512 {
+			if span >= 512 {
 				ctx.Error = errors.New("不能一次性创建过长的数组")
 				return
 			}
+			length := IntType(span) + 1
 
 			arr := make([]*VMValue, length)
 			index := 0
